@@ -348,6 +348,10 @@ def wf_landscape_py(pl):
         cps = cps_of(pl)
         return len(cps) > 0 and all(wf_depth_py(d) for d in cps)
     v = np.asarray(pl.values)
+    if v.size == 0 and len(getattr(pl, "dgms", ())) > 0:
+        # built from diagrams with compute=False: a well-formed operand (the represented function is the
+        # landscape of the diagrams), the values are only not cached yet
+        return pl.num_steps >= 1 and pl.start <= pl.stop
     return (v.dtype.kind == "f" and v.ndim == 2 and v.shape[0] >= 1 and v.shape[1] == pl.num_steps >= 1
             and bool(np.all(np.isfinite(v))) and pl.start <= pl.stop)
 
